@@ -60,10 +60,11 @@ Proof.
   - apply sumn_ext. intros k Hk. unfold skip. destruct (Nat.ltb_spec k m); [|lia].
     destruct (Nat.eqb_spec k m); [lia|reflexivity].
   - rewrite Nat.add_0_r, Nat.eqb_refl.
-    rewrite (sumn_ext _ _ (fun j => g (skip m (m + j)%nat))).
-    + ring.
-    + intros j Hj. unfold skip. destruct (Nat.eqb_spec (m + (1 + j)) m); [lia|].
-      destruct (Nat.ltb_spec (m + j) m); [lia|]. f_equal. lia.
+    assert (E : sumn (n - m) (fun j => if (m + S j =? m)%nat then 0 else g (m + S j)%nat)
+                = sumn (n - m) (fun j => g (skip m (m + j)%nat))).
+    { apply sumn_ext. intros j Hj. unfold skip. destruct (Nat.eqb_spec (m + S j) m); [lia|].
+      destruct (Nat.ltb_spec (m + j) m); [lia|]. f_equal. lia. }
+    rewrite E. ring.
 Qed.
 
 (* Wedderburn: if R = sum_{k<r+1} u_k v_k^T, the pivot R[i,j0] is non-zero and v_m[j0] <> 0, then the
@@ -154,6 +155,48 @@ Proof.
     - field. exact Hp.
     - rewrite H. ring. }
   rewrite Ha. field. exact Hp.
+Qed.
+
+Lemma pivot_nonzero (A X : mat) i j0 alpha :
+  alpha * Model.aca_E_row F rsub A X i j0 = 1 -> me A i j0 - me X i j0 <> 0.
+Proof.
+  unfold Model.aca_E_row. intros H E.
+  assert (Z : me X i j0 - me A i j0 = 0).
+  { transitivity (- (me A i j0 - me X i j0)); [ring|]. rewrite E. ring. }
+  rewrite Z in H. apply (F_1_neq_0 Fth). rewrite <- H. ring.
+Qed.
+
+Lemma has_rank_ext r (R1 R2 : nat -> nat -> F) :
+  (forall a b, R1 a b = R2 a b) -> has_rank r R1 -> has_rank r R2.
+Proof. intros E [u [v H]]. exists u, v. intros a b. rewrite <- E. apply H. Qed.
+
+(* the iteration of lowrank.aca in exact arithmetic: accepted crosses (i, j0, alpha = 1/E_row[j0]) *)
+Fixpoint aca_run (A X : mat) (steps : list (nat * nat * F)) : mat :=
+  match steps with
+  | [] => X
+  | (i, j0, alpha) :: st => aca_run A (Model.aca_step F radd rmul rsub A X i j0 alpha) st
+  end.
+Fixpoint steps_ok (A X : mat) (steps : list (nat * nat * F)) : Prop :=
+  match steps with
+  | [] => True
+  | (i, j0, alpha) :: st =>
+      alpha * Model.aca_E_row F rsub A X i j0 = 1 /\ steps_ok A (Model.aca_step F radd rmul rsub A X i j0 alpha) st
+  end.
+
+(* if the residual A - X is a sum of r outer products, r accepted crosses (each with a non-zero pivot,
+   which is what alpha * E_row[j0] = 1 says) reproduce A exactly *)
+Lemma aca_exact_after_r : forall steps r (A X : mat),
+  has_rank r (fun a b => me A a b - me X a b) -> length steps = r -> steps_ok A X steps ->
+  forall a b, me (aca_run A X steps) a b = me A a b.
+Proof.
+  induction steps as [|[[i j0] alpha] st IH]; intros r A X HR HL HS a b; simpl in *.
+  - subst r. destruct HR as [u [v HR]]. specialize (HR a b). unfold Model.sumn in HR; simpl in HR.
+    transitivity (me A a b - (me A a b - me X a b)); [ring|]. rewrite HR. ring.
+  - destruct r as [|r]; [discriminate|]. destruct HS as [Ha HS].
+    apply (IH r); [|lia|exact HS].
+    apply (has_rank_ext r (wstep (fun p q => me A p q - me X p q) i j0)).
+    + intros p q. symmetry. apply aca_step_is_wstep. exact Ha.
+    + apply wedderburn_step; [exact HR|]. apply (pivot_nonzero A X i j0 alpha Ha).
 Qed.
 
 End FieldProofs.
